@@ -14,6 +14,8 @@ def errJ : Mxl.C05.LErr → Json
   | .valueError => .arr #[.str "ValueError"]
   | .indexError => .arr #[.str "IndexError"]
   | .keyError k => .arr #[.str "KeyError", .str k]
+  | .typeError => .arr #[.str "TypeError"]
+  | .notImplementedError => .arr #[.str "NotImplementedError"]
 
 def rxnJ (rx : LinRxn) : Json :=
   let st : List Json :=
@@ -67,6 +69,7 @@ def handle (j : Json) : Except String Json := do
   let init ← jList (jPair jStr (jList jNat)) (fieldD j "init" (.arr #[]))
   let rxns ← jList (jPair jStr (jList (jPair jStr jInt))) (← field j "rxns")
   let evals ← jList jEval (fieldD j "evals" (.arr #[]))
+  let raw ← jList (jPair jStr (jList (jPair jStr Driver.H_c05.jCoef))) (fieldD j "raw" (.arr #[]))
   -- the pinned helper `_map_substrates_to_labelmap` on given (substrates, map) pairs
   let helperIn ← jList (jPair (jList jStr) (jList jNat)) (fieldD j "helper" (.arr #[]))
   let helper ← helperIn.mapM fun sl => do
@@ -92,16 +95,19 @@ def handle (j : Json) : Except String Json := do
   let labelled := Json.arr (lv.flatMap fun kn => (List.range kn.2).map fun i =>
     Json.arr #[.str (render (.pos kn.1 i)), strsJ ((labelledAt kn.1 kn.2 i).map Driver.H_c05.render)]).toArray
   let nat : String :=
-    match maps.mapM fun km => (Driver.H_c05.natMap km.2).map fun l => (km.1, l) with
+    if !raw.isEmpty then "na"
+    else if (resultJ (linearBuildI rxns lv maps init)).compress != (resultJ (linearBuildP rxns lv maps raw init)).compress
+    then "differs"
+    else match maps.mapM fun km => (Driver.H_c05.natMap km.2).map fun l => (km.1, l) with
     | none => "na"
     | some nmaps =>
-      if (resultJ (linearBuild rxns lv nmaps init)).compress == (resultJ (linearBuildI rxns lv maps init)).compress
+      if (resultJ (linearBuild rxns lv nmaps init)).compress == (resultJ (linearBuildP rxns lv maps raw init)).compress
       then "same" else "differs"
   let padlen := Json.arr (maps.map fun km =>
     Json.arr #[.str km.1, toJson (padLen (isosOf lv) rxns km.1)]).toArray
   let common := [("padlen", padlen), ("helper", Json.arr helper.toArray), ("padded", Json.arr padded.toArray), ("isos", isos),
     ("enrich", Json.arr enrich.toArray), ("labelled", labelled), ("nat", Json.str nat)]
-  match linearBuildI rxns lv maps init with
+  match linearBuildP rxns lv maps raw init with
   | .error e => pure (Json.mkObj ([("err", errJ e)] ++ common))
   | .ok m =>
     pure (Json.mkObj ([("ok", Json.mkObj (modelJ m ++ [
